@@ -47,6 +47,15 @@ NEEDS = {
  'r2_C17_realloc_copysize': 'realloc of a large (>= 8 KB class) object to a size within 16 bytes of the end of its block',
  'r2_C18_slab_rollback_stride': 'slab refill (several slabs at once) during which the back-reference table cannot grow (out of memory) after the first slab got its back reference',
  'r2_C20_critical_resume_not_advertised': 'a task suspended from inside a critical task, resumed while every thread of the arena is asleep or leaving',
+ 'r3_C04_propagate_stops_at_cancelled_ancestor': 'a context tree >= 3 levels deep: the middle context is cancelled, a descendant is reset while the middle is still cancelled (task_group::wait returning canceled, group reused), then a context above the middle is cancelled',
+ 'r3_C20_request_workers_zero_delta_return': 'an arena without worker slots (task_arena(1), task_arena(n,n)) whose threads are already asleep when resume() is called from a foreign thread',
+ 'r3_C11_gtal_wait_first_block_seg0': 'a first block of >= 2 segments being published by one thread (table[0] set, table[1..] not yet) while another thread calls grow_to_at_least(n) with n-1 in segment >= 1 and n already claimed',
+ 'r3_C17_calloc_overflow_heuristic_and': 'scalable_calloc(nobj, size) with exactly one factor >= 2^32 and a true product >= 2^64',
+ 'r3_C14_buffer_consume_no_forward': 'a buffering node with both a reserving (pull) successor and a push successor; an item is reserved, a put or a successor registration arrives during the reservation, then the reservation is consumed',
+ 'r3_C14_buffer_consume_no_forward__asC15': 'as r3_C14_buffer_consume_no_forward (same patch run against the C15 check)',
+ 'r3_C01_empty_proxy_slot_not_cleared': 'one deque holding an affinity proxy already emptied through the mailbox (owner`s isolation tag) below a task with a different isolation tag; owner scans under isolation, then allocates/spawns again',
+ 'r3_C08_notify_by_address_one_unfiltered': 'two tbb::mutex objects whose addresses hash to the same of the 2048 address-waiter monitors, a thread really asleep on each, the sleeper of the OTHER mutex older in the queue, no later unlock through that monitor',
+ 'r3_C08_notify_by_address_one_unfiltered__asC02': 'as r3_C08_notify_by_address_one_unfiltered (same patch run against the C02 check)',
  'r3_C06_scan_sum_slot_early': 'a parallel_scan body that enters the scheduler (nested parallelism / wait) so that the waiting thread runs its own not-yet-started right sibling',
  'r3_C07_serial_ooo_entry_skipped': 'a serial_out_of_order filter that is not the first filter, >= 2 threads and >= 2 live tokens',
  'r3_C09_try_pop_empty_eq': 'concurrent_bounded_queue with a blocked pop() (negative size) while another thread calls try_pop; with abort() an element is lost',
